@@ -122,6 +122,13 @@ type c06Table struct {
 
 func (tb *c06Table) ref() string { return tb.file + " " + tb.alias }
 
+func (tb *c06Table) badOrZero() int {
+	if tb.bad < 0 {
+		return 0
+	}
+	return tb.bad
+}
+
 // writeTable writes the table's file; contentFault in {"", "malformed", "long"} puts a faulty row at tb.bad.
 func (tb *c06Table) write(contentFault string, longLen int) (int64, error) {
 	var sb strings.Builder
@@ -137,9 +144,11 @@ func (tb *c06Table) write(contentFault string, longLen int) (int64, error) {
 		var line string
 		switch tb.kind {
 		case "json":
-			line = fmt.Sprintf(`{"id":%d,"g":%d,"s":"%s"}`, i, g, s)
+			// t: one row per second, ascending (the watermark shape groups by it)
+			ts := fmt.Sprintf("2021-01-01T00:%02d:%02dZ", i/60, i%60)
+			line = fmt.Sprintf(`{"id":%d,"g":%d,"s":"%s","t":"%s"}`, i, g, s, ts)
 			if i == tb.bad && contentFault == "malformed" {
-				line = fmt.Sprintf(`{"id":%d,"g":%d,"s":"%s"`, i, g, s) + " oops"
+				line = fmt.Sprintf(`{"id":%d,"g":%d,"s":"%s","t":"%s"`, i, g, s, ts) + " oops"
 			}
 		case "csv":
 			line = fmt.Sprintf("%d,%d,%s", i, g, s)
@@ -177,7 +186,12 @@ func newC06Table(kind, name, alias string, rows int) *c06Table {
 	return tb
 }
 
-var c06Shapes = []string{"none", "where", "distinct", "order_by", "group_by", "join", "in_subquery", "scalar_subquery", "limit_small", "limit_large", "order_by_limit", "count_star"}
+var c06Shapes = []string{"none", "where", "distinct", "order_by", "group_by", "join", "in_subquery", "scalar_subquery", "limit_small", "limit_large", "order_by_limit", "count_star",
+	// a failing expression above `(SELECT ... LIMIT k)` with the failing row among the first k (often exactly the k-th)
+	"expr_over_limit",
+	// max_diff_watermark -> GROUP BY t TRIGGER ON WATERMARK: the failure reaches the group-by through the
+	// event-time buffer, several event times per release (json only: the time column is an RFC 3339 string)
+	"watermark_group_by"}
 
 // checkC06: one fault per run, injected into the data or the disk under a real
 // file datasource, below a generated query shape. A query that has to consume
@@ -189,6 +203,10 @@ func checkC06(r *Run) {
 	kind := []string{"json", "csv", "lines"}[hdr.Weighted(4, 3, 2)]
 	shapeIdx := hdr.Draw(len(c06Shapes))
 	shape := c06Shapes[shapeIdx]
+	if shape == "watermark_group_by" && kind != "json" {
+		shape = "group_by"
+	}
+	limitSlack := hdr.Weighted(3, 1, 1, 1)
 	rowsOpts := []int{3, 8, 40, 130, 260}
 	nMain := rowsOpts[hdr.Draw(len(rowsOpts))]
 	nSub := []int{2, 5, 120}[hdr.Draw(3)]
@@ -304,13 +322,31 @@ func checkC06(r *Run) {
 			return fmt.Sprintf("SELECT %s FROM %s%s LIMIT 100000", main.id, main.ref(), where(mWhere))
 		case "order_by_limit":
 			return fmt.Sprintf("SELECT %s FROM %s%s ORDER BY %s LIMIT 3", main.id, main.ref(), where(mWhere), main.id)
+		case "expr_over_limit":
+			sel := main.id
+			if withPanic && target == main {
+				sel = strings.ReplaceAll(panicTerm(main), "m.", "x.") + " AS p"
+			} else {
+				sel = strings.ReplaceAll(sel, "m.", "x.")
+			}
+			return fmt.Sprintf("SELECT %s FROM (SELECT * FROM %s LIMIT %d) x", sel, main.ref(), main.badOrZero()+1+limitSlack)
+		case "watermark_group_by":
+			arg := "id"
+			if withPanic && target == main {
+				arg = strings.ReplaceAll(panicTerm(main), "m.", "")
+			}
+			return fmt.Sprintf("WITH w AS (SELECT * FROM max_diff_watermark(source=>TABLE(%s), max_diff=>INTERVAL 5 SECONDS, time_field=>DESCRIPTOR(t)) c) "+
+				"SELECT t, COUNT(%s) AS cnt FROM w GROUP BY t TRIGGER ON WATERMARK", main.file, arg)
 		case "count_star":
 			// uses no column of the table at all: the optimiser may prune every field of the datasource
 			return fmt.Sprintf("SELECT COUNT(*) AS c FROM %s%s", main.ref(), where(mWhere))
 		}
 		panic("shape")
 	}
-	consumesAll := shape != "limit_small" // LIMIT 100000 and ORDER BY ... LIMIT read everything
+	consumesAll := shape != "limit_small" && shape != "expr_over_limit" // LIMIT 100000 and ORDER BY ... LIMIT read everything
+	// the inner LIMIT lets the faulty row through (it is among the first k rows, in file order): a fault in that
+	// row must surface; a read error at an arbitrary byte may lie beyond what LIMIT needs and is judged by the twin
+	needsBadRow := shape == "expr_over_limit" && fault != "read_error"
 
 	type outcome struct {
 		planErr, runErr error
@@ -452,7 +488,7 @@ func checkC06(r *Run) {
 		}
 		return
 	}
-	if consumesAll {
+	if consumesAll || needsBadRow {
 		what := "the failure"
 		if fault == "read_error" {
 			what = fmt.Sprintf("the read error (fired %d times)", res.fired)
